@@ -3,6 +3,9 @@
 From DynVerif Require Import Base Graph Spec.
 From DynVerif.proofs Require Import CoreInv QueryFacts AccFacts.
 From Coq Require Import Sorting.Sorted.
+From DynVerif Require Import PySupportCore.
+From DynVerif.gen Require Import PyGenCore.
+From DynVerif.proofs Require Import PyGenCoreEq.
 
 (** [first_add dir h k]: instant of the first accepted call on pair k; [max_t h]: largest accepted instant *)
 Theorem C08_presence : forall (dir : bool) (cs : list call) (u v tau : Z),
@@ -38,6 +41,14 @@ Print Assumptions C08_stream.
 Theorem C08_queries : forall dir cs, InvAdj (run_calls (GA dir) cs).
 Proof. intros. apply InvAdj_run, InvAdj_init. Qed.
 Print Assumptions C08_queries.
+
+(** source-level tie: the accumulative branch of the presence test is part of the GENERATED text of `has_interaction` /
+    `__presence_test` (tools/py2gallina_core.py); on accumulative graphs too it is the model's [has_interaction] *)
+Theorem C08_source_text : forall (dir : bool) (cs : list call) (u v : Z) (t : option Z),
+  let g := run_calls (GA dir) cs in
+  py_has_interaction_graph g u v t = has_interaction g u v t /\ py_has_interaction_digraph g u v t = has_interaction g u v t.
+Proof. intros. split; [apply py_has_interaction_graph_eq|apply py_has_interaction_digraph_eq]. Qed.
+Print Assumptions C08_source_text.
 
 Example C08_example :
   let cs := [mkCall 1 2 5 (Some 9); mkCall 1 2 3 None; mkCall 3 4 2 None; mkCall 1 2 7 (Some 8); mkCall 3 4 20 None] in
